@@ -10,23 +10,23 @@ import Proofs.Complete
 namespace Asn1
 
 mutual
-theorem reg_plain (cfg : EncCfg) (dm : Bool) : ∀ (t : Ty), t.reg cfg dm = true → t.plain = true
+theorem reg_plain (rl : Bool) (cfg : EncCfg) (dm : Bool) : ∀ (t : Ty), t.reg rl cfg dm = true → t.plain = true
   | .prim p, h => by cases p <;> simp_all [Ty.reg, Ty.plain]
   | .any, h => by simp [Ty.reg] at h
-  | .seq fs, h => by simp only [Ty.reg] at h; simpa [Ty.plain] using regF_plain cfg dm fs h
-  | .set fs, h => by simp only [Ty.reg] at h; simpa [Ty.plain] using regF_plain cfg dm fs h
-  | .choice fs, h => by simp only [Ty.reg] at h; simpa [Ty.plain] using regF_plain cfg dm fs h
-  | .seqOf t, h => by simp only [Ty.reg] at h; simpa [Ty.plain] using reg_plain cfg dm t h
-  | .setOf t, h => by simp only [Ty.reg] at h; simpa [Ty.plain] using reg_plain cfg dm t h
+  | .seq fs, h => by simp only [Ty.reg] at h; simpa [Ty.plain] using regF_plain rl cfg dm fs h
+  | .set fs, h => by simp only [Ty.reg] at h; simpa [Ty.plain] using regF_plain rl cfg dm fs h
+  | .choice fs, h => by simp only [Ty.reg] at h; simpa [Ty.plain] using regF_plain rl cfg dm fs h
+  | .seqOf t, h => by simp only [Ty.reg] at h; simpa [Ty.plain] using reg_plain rl cfg dm t h
+  | .setOf t, h => by simp only [Ty.reg] at h; simpa [Ty.plain] using reg_plain rl cfg dm t h
   | .tagged _ _ _ t, h => by
       simp only [Ty.reg, Bool.and_eq_true] at h
-      simpa [Ty.plain] using reg_plain cfg dm t h.2
-theorem regF_plain (cfg : EncCfg) (dm : Bool) : ∀ (fs : Fields), Fields.reg cfg dm fs = true →
+      simpa [Ty.plain] using reg_plain rl cfg dm t h.2
+theorem regF_plain (rl : Bool) (cfg : EncCfg) (dm : Bool) : ∀ (fs : Fields), Fields.reg rl cfg dm fs = true →
     Fields.plain fs = true
   | .nil, _ => rfl
   | .cons _ t r, h => by
       simp only [Fields.reg, Bool.and_eq_true] at h
-      simp [Fields.plain, reg_plain cfg dm t h.1, regF_plain cfg dm r h.2]
+      simp [Fields.plain, reg_plain rl cfg dm t h.1, regF_plain rl cfg dm r h.2]
 end
 
 /-- `encode` then `decode`, any codec pair with a common profile -/
@@ -35,7 +35,7 @@ theorem codec_roundtrip (cfg : EncCfg) (dcfg : DecCfg) (pf : Profile) (o : EncOp
     (hR : EncRegion cfg pf (cfg.fixedChunk.getD o.maxChunk)) (hC : Compat pf dcfg)
     (hparse : cfg.fixedDefMode.getD o.defMode = true ∨ dcfg.parse.allowIndef = true)
     (t : Ty) (v : Val) (b tail : Bytes)
-    (hreg : t.reg cfg (cfg.fixedDefMode.getD o.defMode) = true) (hwf : t.WF = true)
+    (hreg : t.reg true cfg (cfg.fixedDefMode.getD o.defMode) = true) (hwf : t.WF = true)
     (hty : HasType t v = true) (hn : noE3 cfg.seqOmitEmpty t v = true)
     (h : encItem cfg o t v = .ok b) :
     ∃ w, decodeOne dcfg t (b ++ tail) = .ok (w, tail) ∧ VEq t v w := by
@@ -43,7 +43,7 @@ theorem codec_roundtrip (cfg : EncCfg) (dcfg : DecCfg) (pf : Profile) (o : EncOp
       (encValue cfg (mkO (cfg.fixedDefMode.getD o.defMode) (cfg.fixedChunk.getD o.maxChunk) o.ifNotEmpty) t v) = .ok b := h
   obtain ⟨x, hb, hxw, _, hxd, hber⟩ := encode_spec cfg pf _ _ hR o.ifNotEmpty hi t v b hreg hwf hty hn h'
   subst hb
-  obtain ⟨w, hd, hv, _⟩ := complete_ty pf dcfg hC t v x (reg_plain cfg _ t hreg) hwf hber
+  obtain ⟨w, hd, hv, _⟩ := complete_ty pf dcfg hC t v x (reg_plain true cfg _ t hreg) hwf hber
   have hok : x.okFor dcfg.parse := by
     rcases hparse with hp | hp
     · exact Or.inr (hxd hp)
